@@ -783,4 +783,18 @@ func VerifC15_HookAskedOncePerGeneration() {
 		rt.Assert(f.hook.calls == calls, "cache/hook-asked-again-for-same-uid-and-generation")
 	}
 	rt.Observe("calls", f.hook.calls)
+
+	// ANOTHER controller with a customize hook of its own (or this controller
+	// restarted with a re-pointed webhook) looks at the very same parent, same
+	// UID and generation: it asks ITS hook and works with ITS rules - answers are
+	// remembered per manager, never across controllers
+	rule2 := &v1alpha1.RelatedResourceRule{ResourceRule: v1alpha1.ResourceRule{APIVersion: "v1", Resource: "configmaps"}, Names: []string{"b"}}
+	f2 := verifC15NewFixture([]*dynamicdiscovery.APIResource{env.ThingRes}, env.ConfigMapRes, []*v1alpha1.RelatedResourceRule{rule2})
+	r4, err := f2.mgr.getCustomizeHookResponse(parent)
+	rt.Assert(err == nil, "cache/second-controller-request-error")
+	rt.Assert(f2.hook.calls == 1, "cache/second-controller-did-not-ask-its-own-hook")
+	if err == nil && r4 != nil {
+		rt.Assert(len(r4.RelatedResourceRules) == 1 && r4.RelatedResourceRules[0] == rule2, "cache/answer-of-another-controllers-hook-served")
+	}
+	rt.Assert(f.hook.calls == calls, "cache/first-controllers-hook-asked-on-behalf-of-the-second")
 }
